@@ -42,16 +42,18 @@ PROPS = {
         assumptions=COMMON_ASSUME + [
             "behavioural contract Message.__post_init__/Message.__init__ is assumed for the typed command classes "
             "(their overrides are not verified against it here); the generic classes Message/UndefinedMessage are verified",
-            "NOT DECIDED by this check: the AVP search clause (find_avps/_traverse_avp_tree = at_path) and the AVP-sequence "
+            "NOT DECIDED by this check: the AVP search for paths of more than one element (the recursive at_path equation of "
+            "_traverse_avp_tree), find_avps with alt_list (shares the cache keys of the message's own searches) and after the AVP "
+            "list was modified (stale cache) - both outside the property's quantifier; the AVP-sequence "
             "equality of Message.from_bytes (only header fields, termination, progress and raises are proved); "
             "re-encoding is proved per AVP (C01) and for the message frame (as_bytes#plain), not yet composed"],
         level_text="Deductive proof for all header values and buffers: MessageHeader.as_packed/from_bytes against the hdr_wire() "
                    "spec function incl. the decode(encode) lemma; Message.as_bytes (generic class) = hdr_wire(len := 20+|body|) ++ "
                    "wires(avps) with a loop invariant; Message.from_bytes yields the wire's header fields (flags included) for "
                    "every class, terminates (variant) and raises only decode errors; class dispatch and the registry are ground "
-                   "obligations evaluated exhaustively on the real registry (every code x R bit).",
+                   "obligations evaluated exhaustively on the real registry (every code x R bit). Message.find_avps (generic class, message searched itself): a single-element path returns exactly the matching AVPs in list order also when earlier searches filled the cache, and the cache stays consistent with the AVP list (cache key = the real join expression as an uninterpreted function, assumed injective).",
         level_note="Trusted: pyvc generator/builtin models, T-struct, SMT solvers. Assumed: behavioural __post_init__ contract for "
-                   "typed classes. Not decided: AVP search (at_path) and AVP-sequence equality of the decoded list.",
+                   "typed classes. Not decided: AVP search for multi-element paths and AVP-sequence equality of the decoded list.",
         explanation="Header codec, message frame codec and decode loop under contract; registry/dispatch exhaustive.",
     ),
     "C04": dict(
@@ -180,7 +182,7 @@ PROPS = {
                    "_receive_app_request answers 3007 without Destination-Realm, 3003 for a realm that is not in the route table, "
                    "hands the request exactly once to an application that is a key of that realm's routes with the request's "
                    "application id and the originating peer in its peer list, and answers 3007 only if no key matches (for an "
-                   "arbitrary witness key); base-protocol commands never reach an application; a failing handler yields 5012.",
+                   "arbitrary witness key); base-protocol commands never reach an application; a failing handler yields 5012. The dispatcher hands every message to the node while the connection is READY, READY_WAITING_DWA or DISCONNECTING (gate clause), and an application request the node answers itself carries 3003, 3007, 5005 or 5012 only.",
         level_note="Sequential contracts; universally quantified ghost witness for 'no other application'.",
         explanation="case postconditions of validate_message_avps, _receive_app_request and _receive_message.",
     ),
@@ -197,7 +199,7 @@ PROPS = {
                    "than the idle timeout => exactly one DWR queued, state READY_WAITING_DWA, DWR timestamp set; within the "
                    "idle timeout => nothing happens; READY_WAITING_DWA longer than the DWA timeout => closed with DWA_TIMEOUT and "
                    "never a second DWR; CONNECTED beyond the CER/CEA timeout => closed with FAILED_CONNECT_CE; DWA => READY and "
-                   "timer cleared; DWR => exactly one 2001 DWA with the node's Origin-State-Id in either ready sub-state.",
+                   "timer cleared; DWR => exactly one 2001 DWA with the node's Origin-State-Id in either ready sub-state. Every chunk of received bytes restarts the idle timer (step clause of the read loop).",
         level_note="All timer values and clock readings (no horizon bound). Sequential contracts.",
         explanation="case postconditions over a virtual clock.",
     ),
@@ -213,7 +215,7 @@ PROPS = {
                    "returns a READY connection whose host identity is h0 (the requester's registered connection for an arbitrary "
                    "witness key), consumes the pending entry before returning (a second submission finds none), raises "
                    "NotRoutable only when no ready connection of h0 is registered, and that Application.send_answer queues the "
-                   "answer exactly once on that connection and on NotRoutable queues nothing on any connection.",
+                   "answer exactly once on that connection and on NotRoutable queues nothing on any connection. A delivered request is recorded as pending under the host identity of the connection it arrived on and under no other host (_receive_app_request), and after a DPR the connection is DISCONNECTING whatever ready state it was in (receive_dpr).",
         level_note="Sequential contracts. The routing-to-the-requester clause holds only under the exclusion of the recorded "
                    "known finding (equal hop-by-hop ids pending on two hosts); the check re-proves it under that exclusion "
                    "and reports any other failure as a violation.",
@@ -238,7 +240,7 @@ PROPS = {
                    "when assigned by the node, the generator's successor; the (hbh:e2e -> application) correlation is recorded; "
                    "_receive_app_answer hands an answer only to the recorded application; receive_answer gives it to the "
                    "registered waiter or else to this application's own unexpected-answer hook; send_request removes its "
-                   "waiter on every exit.",
+                   "waiter on every exit. Inside send_request the waiter is registered before the request is handed to the node (call-site obligation on Node.send_message).",
         level_note="Sequential contracts with universally quantified witness peer; existential witness (chosen peer) named "
                    "from the function's own local at return.",
         explanation="eligibility postcondition of route_request + correlation contracts.",
@@ -249,10 +251,12 @@ PROPS = {
         trusted_base=["socket objects: close()/fileno()/setsockopt() models"],
         assumptions=COMMON_ASSUME + [
             "handlers are serialized (S5): cross-thread mutation of the tables is not decided",
-            "NOT DECIDED: the readiness clauses (an application reports ready whenever one of its configured peers has a ready "
-            "connection / not ready once none has a connection): they need invariants over three nested table loops; only "
-            "'_flag_connection_as_ready never clears a ready flag' is proved",
-            "receive_cer / receive_cea are verified under C06 and _connect_to_peer under C19; C13 does not depend on them"],
+            "NOT DECIDED: 'an application reports not ready once none of its configured peers has a connection' (a universal "
+            "hypothesis over all configured peers; only the converse safety half - a ready configured peer keeps the flag - and "
+            "the set-on-ready clause are proved)",
+            "object invariant used by the readiness proofs: each Application owns its ready Event (ground obligation C13.own: "
+            "is_ready is assigned once, in Application.__init__, to a new Event)",
+            "receive_cer / receive_cea are verified under C06; _connect_to_peer (specs/c19.py) is also checked under C13"],
         level_text="Deductive proof of the table effects of every mutator for ALL table states: remove_peer_connection / "
                    "close_connection_socket leave the connection in none of connections, peer_sockets, socket_peers, "
                    "_half_ready_connections, drop its pending-answer table, close a registered socket and stop both workers, "
@@ -260,20 +264,21 @@ PROPS = {
                    "reason and keep an already-set reason; _add_peer_connection either registers the connection under a fresh "
                    "id in every table and links it to its peer or the half-ready table, or refuses it (node stopping / peer "
                    "already connected) closing socket and workers without touching any table; _assign_peer_connection links "
-                   "a known peer, keeps an existing link and empties the half-ready entry.",
+                   "a known peer, keeps an existing link and empties the half-ready entry. _flag_connection_as_ready sets the ready flag of every application one of whose configured peers holds the connection; remove_peer_connection leaves the flag of an application with a ready configured peer untouched; a dial that leaves no registered connection has closed its socket and stopped its workers, and a dialled connection that stays registered is linked to its peer.",
         level_note="Per-call contracts (the invariant is the conjunction of these effects); histories are covered by modularity, "
                    "not enumerated.",
         explanation="per-mutator table postconditions + frames.",
     ),
     "C12": dict(
-        specs=["packer", "avp", "avp_types", "avp_grouped", "base", "node_model", "peer", "helpers", "c20", "family", "node", "c13"],
+        specs=["packer", "avp", "avp_types", "avp_grouped", "base", "node_model", "peer", "helpers", "c20", "family", "node", "c13", "c19"],
         ground=[], replay=replay.generic,
         trusted_base=["time.time() non-decreasing"],
         assumptions=COMMON_ASSUME + [
-            "Node._connect_to_peer is used through an assumed contract (every call is a dial attempt, logged in a ghost "
-            "sequence); its socket-level outcomes (EINPROGRESS, refusal) are an environment contract and 'never two "
-            "self-initiated connections' rests on _add_peer_connection's duplicate refusal (C13) plus its own connection guard, "
-            "which is not mechanically verified here"],
+            "Node._connect_to_peer is verified (specs/c19.py): every call is a dial attempt (ghost log), a dialled connection that "
+            "stays registered is linked to its peer (so the peer is not dialled again while the dial is in progress), a connected "
+            "peer is not dialled; its socket-level outcomes (EINPROGRESS, refusal) are an environment contract; 'never two "
+            "self-initiated connections' follows from these clauses plus _add_peer_connection's duplicate refusal (C13) by an "
+            "argument over the history that is not mechanised; assumed invariant: self.peers is keyed by Peer.node_name"],
         level_text="Deductive proof that receive_dpr queues exactly one 2001 DPA, leaves the connection DISCONNECTING (hence "
                    "excluded by route_request/route_answer, C09/C10) and records DISCONNECT_REASON_DPR on the peer; that "
                    "remove_peer_connection keeps an already-set reason; and, by a per-iteration step contract on the real "
@@ -300,7 +305,7 @@ PROPS = {
                    "the per-request worker _process_recv_msg, with the user handler assumed to return anything or raise "
                    "anything and send_answer assumed to raise anything; plus slot accounting: the worker hands exactly one "
                    "item to the response queue on every path, the response consumer makes at most one slot release per item, "
-                   "and a slot taken by the receive consumer goes to a started worker or is released.",
+                   "and a slot taken by the receive consumer goes to a started worker or is released. One iteration of the send branch of the I/O loop (slice of _handle_connections) raises nothing even for a socket without a registered connection, and a connection it closes without releasing the socket has signalled the node.",
         level_note="Per-thread sequential contracts; liveness and cross-thread schedules are not decided.",
         explanation="raises-nothing and slot-accounting contracts on the thread targets.",
     ),
